@@ -444,6 +444,18 @@ def k9_k10(F, rep, contracts):
     p1, p2 = pred(comp), pred(solve)
     rep.ob("CONTRACT", "K10", p1 is not None and p1 == p2,
            "the lowering finds `start` with the predicate `%s`; solve() (which errors when it is absent) uses `%s`" % (p1, p2), comp["sp"])
+    # ... and the None arm of the match on that lookup in solve() is an error exit (otherwise compile()'s unwrap is reachable)
+    tsolve = F.fn("sylt_compiler::typechecker::TypeChecker::solve")
+    none_err = False
+    for m in nodes(fn_body(tsolve), "Match"):
+        if "Option<" in m.get("scrut_ty", ""):
+            for a in m["arms"]:
+                for alt in pat_alternatives(a["pat"]):
+                    if (pat_variant(alt) or "").endswith("Option::None"):
+                        none_err = tc.is_err_value(a["body"])
+    rep.ob("CONTRACT", "K10|absent=>Err", none_err,
+           "TypeChecker::solve returns an error when no global named `start` exists, so intermediate::compile's "
+           "`.find(..).unwrap()` with the same predicate cannot meet None", tsolve["sp"])
     tnew = F.fn(TCP + "new")
     fields = {f["name"]: pp(peel_clone(f["e"])) for s in nodes(fn_body(tnew), "Struct") if s["path"].endswith("TypeVariable") for f in s["fields"]}
     rep.ob("CONTRACT", "K10|variables-copied", fields.get("name") == "var.name" and fields.get("is_global") == "var.is_global",
